@@ -37,10 +37,13 @@ type Mutation struct {
 	Off   int    // payload byte offset (flip), or cut length
 	Bit   uint
 	Value byte // status or tag
+	// LoseFirst replies of the step are lost before the mutated one is delivered
+	// (the library retransmits the payload in between)
+	LoseFirst int
 }
 
 func (m Mutation) String() string {
-	return fmt.Sprintf("%s/%s off=%d bit=%d val=%d", m.Kind, m.Step, m.Off, m.Bit, m.Value)
+	return fmt.Sprintf("%s/%s off=%d bit=%d val=%d lost-first=%d", m.Kind, m.Step, m.Off, m.Bit, m.Value, m.LoseFirst)
 }
 
 var stepPT = map[string]uint8{"open": ref.PTOpenRsp, "rakp2": ref.PTRAKP2, "rakp4": ref.PTRAKP4}
@@ -107,6 +110,7 @@ func attempt(c hx.Creds, m *Mutation) (o outcome) {
 			}
 		}
 	}
+	stepReplies := 0
 	realToFake := map[uint32]uint32{}
 	fakeToReal := map[uint32]uint32{}
 	w.Net.Peer = func(d []byte) []memnet.Out {
@@ -125,6 +129,12 @@ func attempt(c hx.Creds, m *Mutation) (o outcome) {
 		for i := range outs {
 			b := outs[i].Data
 			if len(b) < 17 || b[5]&0x3f != stepPT[m.Step] {
+				continue
+			}
+			stepReplies++
+			if stepReplies <= m.LoseFirst {
+				outs[i].Data = nil // lost on the way
+				o.changed = true
 				continue
 			}
 			pl := b[16:]
@@ -170,7 +180,13 @@ func attempt(c hx.Creds, m *Mutation) (o outcome) {
 				}
 			}
 		}
-		return outs
+		kept := outs[:0]
+		for _, out := range outs {
+			if out.Data != nil {
+				kept = append(kept, out)
+			}
+		}
+		return kept
 	}
 	defer func() {
 		if p := recover(); p != nil {
@@ -208,6 +224,9 @@ func judge(c hx.Creds, m Mutation) string {
 	}
 	if m.Kind == "pwprefix" && len(c.Password) > 16 && m.Off == 16 {
 		ev.Label(fmt.Sprintf("auth%d:pwprefix16-of-%d", c.Suite.Auth, len(c.Password)))
+	}
+	if m.LoseFirst > 0 {
+		ev.Label(fmt.Sprintf("fault-on-retransmission:%s", m.Step))
 	}
 	ev.Label(fmt.Sprintf("auth%d:%s:%s", c.Suite.Auth, m.Kind, m.Step))
 	ev.NonTrivial(fmt.Sprintf("%d|%s", c.Suite.Auth, m))
@@ -252,6 +271,20 @@ func enumerate(auth uint8) []Mutation {
 	}
 	for i := 0; i < 40; i++ {
 		ms = append(ms, Mutation{Kind: "password", Off: i, Bit: uint(i)}, Mutation{Kind: "kg", Off: i, Bit: uint(i)})
+	}
+	// the same faults on a retransmission: the first one or two replies of the step
+	// are lost, then the defined RMCP+ status codes (full and short form), an ICV /
+	// AuthCode bit flip or a cut arrive
+	for _, step := range []string{"open", "rakp2", "rakp4"} {
+		for lost := 1; lost <= 2; lost++ {
+			for v := 1; v <= 0x12; v++ {
+				ms = append(ms, Mutation{Kind: "status", Step: step, Value: byte(v), LoseFirst: lost}, Mutation{Kind: "statusShort", Step: step, Value: byte(v), LoseFirst: lost})
+			}
+			if step != "open" { // the last byte of RAKP 2 / RAKP 4 is part of the AuthCode / ICV
+				ms = append(ms, Mutation{Kind: "flip", Step: step, Off: pl[step] - 1, Bit: uint(lost), LoseFirst: lost})
+			}
+			ms = append(ms, Mutation{Kind: "cutPayload", Step: step, Off: pl[step] - 1, LoseFirst: lost}, Mutation{Kind: "cutPayload", Step: step, Off: 8, LoseFirst: lost})
+		}
 	}
 	return ms
 }
@@ -443,6 +476,9 @@ func TestRandom(t *testing.T) {
 		default:
 			m.Off, m.Bit = rapid.IntRange(0, 19).Draw(t, "off"), uint(rapid.IntRange(0, 7).Draw(t, "bit"))
 		}
+		if m.Kind != "password" && m.Kind != "kg" && m.Kind != "pwprefix" && m.Kind != "pwextend" && m.Kind != "pwbyte" {
+			m.LoseFirst = rapid.SampledFrom([]int{0, 0, 1, 2}).Draw(t, "repliesLostFirst")
+		}
 		if msg := judge(c, m); msg != "" {
 			t.Fatalf("mutation %v: %s", m, msg)
 		}
@@ -458,6 +494,7 @@ func TestCoverage(t *testing.T) {
 	}
 	for _, a := range []int{1, 2, 3} {
 		need = append(need, fmt.Sprintf("auth%d:integrity-none", a))
+		need = append(need, "fault-on-retransmission:open", "fault-on-retransmission:rakp2", "fault-on-retransmission:rakp4")
 		for n := 17; n <= 20; n++ {
 			need = append(need, fmt.Sprintf("auth%d:pwprefix16-of-%d", a, n))
 		}
